@@ -6,7 +6,7 @@
 (* load walk; one step = everything the law answers for one load L:          *)
 (*   lgS    primary stress for +L            lgSneg  |stress| for -L         *)
 (*   lgD    stress range for the range 2L    lgLb    load(stress(L))         *)
-(*   lgLbs  load range of (stress range of 2L)                               *)
+(*   lgLbs  load range of (stress range of 2L)   lgLbneg |load(stress(-L))|  *)
 (*   lgEps / lgEpsRO   strain() answered / Ramberg-Osgood strain of lgS      *)
 (*   forms  the primary stress asked as array / scalar / Series / inside a   *)
 (*          longer array                                                     *)
@@ -40,6 +40,7 @@ StepClause(t, s) ==
   ELSE IF ~Within(s.lgDEps, s.lgDEpsRO, TauEq) THEN "strain_range_is_not_the_doubled_Ramberg_Osgood_curve"
   ELSE IF s.lgLb # 0 /\ ~Within(s.lgLb, s.lgL, t.tau) THEN "load_of_stress_is_not_the_load"
   ELSE IF s.lgLbs # 0 /\ ~Within(s.lgLbs, s.lgL + Two, t.tau) THEN "load_range_of_stress_range_is_not_the_load_range"
+  ELSE IF s.lgLbneg # 0 /\ ~Within(s.lgLbneg, s.lgL, t.tau) THEN "load_of_the_mirrored_stress_is_not_the_mirrored_load"
   ELSE IF \E i \in 1..Len(s.forms) : ~Within(s.forms[i], s.lgS, t.tau) THEN "scalar_array_and_Series_inputs_differ"
   ELSE "ok"
 (* strictly increasing: compared with the last answered step of the walk *)
